@@ -1,0 +1,22 @@
+//go:build verif
+
+// Contracts for the govc verifier (/verif). This file contains comments only; it is compiled
+// only under the build tag "verif" and contributes no declarations.
+package model
+
+// ---------------------------------------------------------------------------------------------
+// Signed consensus messages (C15): a SignInfo verifies its signature against the data hash IT CARRIES.
+
+//@ func SignInfo.VerifySign
+//@   property C15
+//@   ensures [sound] result ==> sigOK(pk, bytes(si.dataHash), si.signature)
+//@   modifies nothing
+
+// Message accessors are getters.
+//@ func ConsensusMessage.GetMessageID
+//@   option trusted interface
+//@   modifies nothing
+
+//@ func ConsensusMessage.GenHash
+//@   option trusted interface
+//@   modifies nothing
